@@ -83,6 +83,27 @@ class World:
             s = io.BytesIO(data)
         elif kind == "bufreader":
             s = io.BufferedReader(io.BytesIO(data))
+        elif kind == "gzip":
+            # a binary stream whose .name is a file that holds OTHER bytes (the compressed form)
+            import gzip
+            gz = self.data_path(name, table) + ".gz"
+            if not os.path.exists(gz):
+                with open(gz, "wb") as f:
+                    f.write(gzip.compress(data, mtime=0))
+            s = gzip.open(gz, "rb")
+        elif kind == "fdopen":
+            # .name is a file descriptor number, not a path
+            s = os.fdopen(os.open(self.data_path(name, table), os.O_RDONLY), "rb")
+        elif kind == "replaced":
+            # the path the stream was opened from has been replaced since: .name describes other bytes of another size
+            self._replaced_n = getattr(self, "_replaced_n", 0) + 1
+            p2 = self.data_path(name, table) + f".r{self._replaced_n}"
+            with open(p2, "wb") as f:
+                f.write(data)
+            s = open(p2, "rb")
+            with open(p2 + ".new", "wb") as f:
+                f.write(b"other bytes of another length " * 3 + data[:17])
+            os.replace(p2 + ".new", p2)
         else:
             raise ValueError(kind)
         s.seek(off)
